@@ -143,3 +143,30 @@ PROPS["C12"] = {
     "assumptions": ["no duplicate live connections", "an object that is both emitter and listener is not generated"],
     "parts": [opf("callback", ["harness/c12_callback.cpp"], {"cases": 1500000, "maxsize": 30}, {"cases": 3000000, "maxsize": 80, "workers": 16})],
 }
+
+
+def lfz(name, sources, quick, thorough, **kw):
+    d = {"name": name, "kind": "libfuzzer", "sources": sources, "tiers": {"quick": quick, "thorough": thorough}}
+    d.update(kw)
+    return d
+
+ENGINES.append({"name": "libFuzzer", "path": "engine/fuzz.hpp", "serves_properties": ["C15", "C16", "C18", "C20"], "kind_free_text": "clang 14 libFuzzer targets (-fsanitize=fuzzer,address + UBSan white-list) with the semantic oracle inside the target"})
+
+PROPS["C15"] = {
+    "level": "exploration",
+    "engine": "opfuzz + libFuzzer",
+    "level_text": "generated value trees (all listed alternatives, boundary integers, strings rich in quotes, backslashes, control characters, UTF-8 of 2-4 bytes, depth up to 1000) are serialised and parsed back; the same trees are written as documents with comments and escapes and checked against a reference comment stripper; every truncation (short texts) and sampled byte flips are parsed for totality and error position; a coverage-guided libFuzzer target with the same oracles runs on arbitrary NUL-free bytes held in exactly sized heap blocks under ASan/UBSan",
+    "level_note": "trusted: reference stripper and error-position rule in harness/json_common.hpp, the value-tree model in harness/c15_json.cpp, ASan/UBSan, libFuzzer; doubles are excluded from the round trip (their %f text is lossy and the statement excludes them); strings are NUL-free",
+    "technique": "property-based round-trip and differential testing (reference comment stripper) on generated trees plus coverage-guided fuzzing with in-target oracle",
+    "rule": "opfuzz 'tree': flat op lists (push-list, push-map, scalar, string, pop) build a tree; oracle: parse(toString(t)) equals t structurally and under Variant==; decorated document: stripComments == reference and parses to t; all truncations of texts <=200 bytes (24 sampled beyond) and 12 byte flips: no crash, error line/column inside the text. Non-trivial = (tree contains a string needing escapes or non-ASCII bytes AND depth >=2) OR a decorated document with a comment and a string escape. "
+            "libFuzzer 'fuzz': first byte selects parse or stripComments mode; non-trivial = parsed input with escape-worthy/non-ASCII string at depth >=2 that round-trips, or a well-formed comment-stripping input containing both a comment and a string; distinct by input hash.",
+    "assumptions": ["nesting depth <= 1000", "NUL-free input and strings", "lines are separated by CR LF, CR or LF"],
+    "parts": [opf("tree", ["harness/c15_json.cpp"], {"cases": 60000, "maxsize": 40}, {"cases": 600000, "maxsize": 120, "workers": 16}, deps=["harness/json_common.hpp"]),
+              lfz("fuzz", ["harness/c15_json_fuzz.cpp"], {"runs": 150000, "workers": 8, "time": 120}, {"runs": 3000000, "workers": 16, "time": 900}, max_len=600, deps=["harness/json_common.hpp"])],
+}
+
+
+# property modules kept in separate files (props_cXX.py define PROPS["CXX"] using the helpers above)
+import glob as _glob, os as _os
+for _f in sorted(_glob.glob(_os.path.join(_os.path.dirname(_os.path.abspath(__file__)), "props_c*.py"))):
+    exec(compile(open(_f).read(), _f, "exec"))
